@@ -177,6 +177,43 @@ def run_exact(ctx, res, dag, lines, post):
                     res.failures.append({'kind': 'raw-vs-normalised-inputs-differ', 'input': {'dag': dag, 'x': xs, 'norms': norms},
                                          'observed': float(np.asarray(yn[o])[0]), 'expected': ref[o]})
             res.hit('normalised-inputs')
+    # raw / normalised forms: coupling variables carry (dyadic, hence exact) linear normalisations too, a random SUBSET of the
+    # components is evaluated through its model (`use_model` per component), the others through the surrogate-form path, and the
+    # inputs are handed over raw or normalised: every number `System.predict` returns must be the one the forms model holds
+    # (`sweepF`: value in the form recorded for it), which by `C07.decode_sweepF` stands for the plain composition
+    if ref is not None:
+        lin = {None: (1.0, 0.0), 'linear(0.5, 1)': (0.5, 1.0), 'linear(2, -1)': (2.0, -1.0), 'linear(4, 3)': (4.0, 3.0)}
+        norms2 = dict(norms)
+        for o in all_out:
+            norms2[o] = rng.choice([None, 'linear(0.5, 1)', 'linear(2, -1)', 'linear(4, 3)'])
+        names = [c['name'] for c in dag['comps']]
+        for _ in range(2):
+            ums = [nme for nme in names if rng.random() < 0.5]
+            ni = rng.random() < 0.5
+            sysf = build_exact_system(dag, perms[0], norms2)
+            xgiven = {k: (float(sysf.inputs()[k].normalize(np.array([v]))[0]) if ni else v) for k, v in xs.items()}
+            try:
+                yf = sysf.predict({k: np.array([v]) for k, v in xgiven.items()}, use_model={nme: 'best' for nme in ums},
+                                  normalized_inputs=ni)
+            except Exception as e:  # noqa: BLE001
+                res.failures.append({'kind': 'predict-raised', 'input': {'dag': dag, 'use_model': ums, 'norms': norms2, 'normalized_inputs': ni},
+                                     'observed': repr(e)[:300]})
+                continue
+            gotf = {o: float(np.asarray(yf[o]).reshape(-1)[0]) for o in all_out if o in yf}
+            lines.extend(lean_lines(dag, perms[0], xs, [])[:-1])
+            post.extend([None] * (len(dag['comps']) + 1))
+            lines.append('sys.forms ' + ' '.join(ums) + ' | ' + ' '.join(f'{v}={rat_str(lin[nn][0])}:{rat_str(lin[nn][1])}' for v, nn in norms2.items() if nn)
+                         + ' | ' + ' '.join(f'{k}={rat_str(v)}' for k, v in xgiven.items()) + ' | ' + ('1' if ni else '0'))
+            post.append(('forms', dag, {'use_model': ums, 'norms': {k: v for k, v in norms2.items() if v}, 'normalized_inputs': ni, 'x': xgiven}, gotf))
+            # … and the physical values are those of the reference run, whatever the path selection
+            for o in all_out:
+                m_, b_ = lin[norms2[o]]
+                raw = gotf[o] if (sysf.get_component(next(c['name'] for c in dag['comps'] if o in c['outs'])).name in ums) else (gotf[o] - b_) / m_
+                if raw != ref[o]:
+                    res.failures.append({'kind': 'physical-value-depends-on-evaluation-paths-or-input-form',
+                                         'input': {'dag': dag, 'use_model': ums, 'norms': norms2, 'normalized_inputs': ni, 'x': xs, 'output': o},
+                                         'observed': raw, 'expected': ref[o]})
+            res.hit('mixed-paths-and-forms')
     res.case(('exact', str(dag)), len(dag['comps']) >= 3, {'dag': dag, 'x': xs, 'outputs': ref})
 
 
@@ -489,6 +526,13 @@ def run(ctx: core.Ctx, only=None) -> core.Result:
     n = min(len(post), len(lines))
     for pst, o in zip(post[:n], (out or [])[:n]):
         if pst is None:
+            continue
+        if pst[0] == 'forms':
+            _, dag, cfg, gotf = pst
+            model = {kv.split('=')[0]: float(core.parse_rat(kv.split('=')[1].split(':')[0])) for kv in o.split()}
+            if model != gotf:
+                res.disagreements.append({'name': 'Amisc.sweepF (raw / normalised forms) vs System.predict(use_model per component)',
+                                          'input': {'dag': dag, **cfg}, 'impl': gotf, 'model': model})
             continue
         _, dag, perm, xs, got = pst
         vals, meta = o.split(' | ')
